@@ -389,6 +389,8 @@ class Sim(object):
                 pool.owner.pop(h, None)
             self.count('probe.receiver_dropped_after_cancelled_mutator')
         self.clones[op['id']] = ctx.clones
+        if getattr(self, 'tcur', None) is not None and op['task'] < len(self.tcur) and self.tcur[op['task']] is ctx:
+            self.tcur[op['task']] = None
         self.records.append(rec)
         self.events.append(('op', op['id'], op['name'], kind, digest_obj(rec['res']), digest_obj(rec['recv_post']),
                             ctx.steps, tuple(ctx.fired), reads))
